@@ -12,6 +12,7 @@ vp_take_read_until(reader, max_buf_len, b'\n', buf)
         is_suffix(wire(final(reader)), wire(old(reader))), // id: wire_only_advances [C01,C02]
         fault_free(old(reader)) ==> fault_free(final(reader)), // id: fault_free_kept [C02]
         final(buf)@.len() <= max_buf_len, // id: line_buffer_capped [C05]
+        wrote(final(reader)) == wrote(old(reader)), origin(final(reader)) == origin(old(reader)), // id: reading_writes_nothing [C12]
         res matches Ok(n) ==> n == until_len(wire(old(reader)), max_buf_len, 10u8) && n >= 1 // id: line_is_wire_prefix [C01,C02,C19]
             && wire(final(reader)) == wire(old(reader)).skip(n as int)
             && wire(old(reader))[n - 1] == 10u8
